@@ -69,6 +69,16 @@ def numjac(seed, tier, quick=40, thorough=1500):
     return dict(ok=r["ok"], cases=r["cases"], distinct_nontrivial=r["edges"], kinds=r["kinds"], arities=r["arities"], samples=r["samples"], disagreements=r["disagreements"][:3])
 
 
+def numiter(seed, tier, quick=30, thorough=800):
+    """C16: the typed numerical-Jacobian graph model (Props/C16/NumModel.lean numSystem / numStep, driver commands `numiterm` /
+    `numiter`) vs the real optimize(max_iter=1) on graphs whose built-in edges are forced onto BaseEdge.calc_jacobians"""
+    from harness import numiter as NI
+
+    r = NI.run(seed, _pick(tier, quick, thorough))
+    keys = ("graphs", "edges", "worlds", "features", "fixed_vertices", "nonfinite_updates", "literal_checked", "self_loop_edges", "worst_b", "worst_H", "worst_update", "analytic_compared", "analytic_distinguishable", "analytic_distinguishable_at_1e-9", "eps", "tolerances")
+    return dict(ok=r["ok"], cases=r["cases"], distinct_nontrivial=r["graphs"], samples=r["samples"], disagreements=r["disagreements"][:3], **{k: r[k] for k in keys})
+
+
 def purity(seed, tier, quick=(60, 40), thorough=(3000, 50)):
     from harness import purity as P
 
